@@ -1,7 +1,7 @@
 """C09 — Tilesets load to the same picture from custom and standard formats."""
 from ..extract import AnalysisBroken
 from ..facts import CALLS, fmt_term
-from ..flow import Engine, Summaries, final_site_facts, fmt_fact
+from ..flow import Engine, Summaries, final_site_facts, fmt_fact, subterms
 from ..report import ok, bad
 from ..rules_layout import r_layout
 from ..rules_sib import P, returns
@@ -162,6 +162,53 @@ def validation_and_orientation(F, S):
     return out
 
 
+def header_fields_constrained(F, S):
+    """Every format-constrained field of the custom tileset header is constrained on load: either TilesetHeader::Validate
+    refuses on it, or it is what the returned bitmap is created from (and ValidateTileset then judges the bitmap)."""
+    out = []
+    rd = F.fn(T + "ReadCustomTileset", nparams=1, pred=lambda f: "Reader &)" in f.key)
+    va = F.fn(T + "TilesetHeader::Validate", nparams=0)
+    hdr = None
+    for nd in rd.nodes:
+        if nd["k"] == "DeclStmt":
+            for d in nd.get("decls", []):
+                if (d.get("rec") or "").endswith("Tileset::TilesetHeader"):
+                    hdr = ("var", d["n"], d["d"])
+    if hdr is None:
+        raise AnalysisBroken("ReadCustomTileset: header local not found")
+    ci = [nd for nd in rd.nodes if nd["k"] in CALLS and nd.get("fname") == "CreateIndexed"]
+    created_from = set()
+    for c in ci:
+        for a in c["args"]:
+            for st in subterms(rd.term(a)):
+                if st[0] == "mem" and st[1] == hdr:
+                    created_from.add(st[2])
+    refused = set()
+    g = Engine(F, S).cfg(va)
+    for nd in va.nodes:
+        if nd["k"] == "IfStmt":
+            body = va.subtree(nd["then"]) if "then" in nd else set()
+            throws = any(va.n(x)["k"] == "CXXThrowExpr" or (va.n(x)["k"] in CALLS and (va.n(x).get("fname") or "").lower().startswith("throw")) for x in body)
+            if throws:
+                for st in subterms(va.term(nd["cond"])):
+                    if st[0] == "mem" and st[1] == ("this",):
+                        refused.add(st[2])
+                    elif st[0] == "mem" and st[1][0] == "mem" and st[1][1] == ("this",):
+                        refused.add(st[1][2] + "." + st[2])
+    for f, why in (("sectionHead.tag", "section tag"), ("sectionHead.length", "section length"), ("tagCount", "tag count"),
+                   ("pixelWidth", "pixel width"), ("pixelHeight", "pixel height"), ("bitDepth", "bit depth")):
+        inst = T + "ReadCustomTileset#constrained:" + f
+        req = "the header's %s is judged on load (refused by TilesetHeader::Validate, or the validated bitmap is created from it)" % why
+        top = f.split(".")[0]
+        if f in refused or top in refused:
+            out.append(ok("R-TAINT", inst, va.loc(va.body), va.qn, req, "refusal in TilesetHeader::Validate"))
+        elif top in created_from:
+            out.append(ok("R-TAINT", inst, rd.loc(ci[0]["id"]), rd.qn, req, "flows into BitmapFile::CreateIndexed; ValidateTileset judges the result"))
+        else:
+            out.append(bad("R-TAINT", inst, rd.loc(rd.body), rd.qn, req, "the field is read from the file and then ignored: any value is accepted"))
+    return out
+
+
 def tileset_constraints(F, S):
     fn = F.fn(T + "ValidateTileset", nparams=1)
     eng = Engine(F, S)
@@ -198,6 +245,7 @@ def check(F, run, tier):
     run.add(swap_palette_exact(F, S))
     run.add(once_each_side(F, S))
     run.add(validation_and_orientation(F, S))
+    run.add(header_fields_constrained(F, S))
     run.add(tileset_constraints(F, S))
     run.add(ic.detectors(F, S))
     pk = F.fn("OP2Utility::Stream::BidirectionalReader::Peek", nparams=2)
